@@ -252,6 +252,11 @@ def check_positions(ctx, fn, construct, self_call_names=("_call_binary",)):
             continue
         names = names_read(st) | {t.id for t in ast.walk(st) if isinstance(t, ast.Name)}
         has1, has2 = p1 in names, p2 in names
+        rebound = {t.id for t in ast.walk(st) if isinstance(t, ast.Name) and isinstance(t.ctx, ast.Store)}
+        if (has1 != has2) and not ({p1, p2} & rebound) and not any(isinstance(x, (ast.Return, ast.Raise)) for x in ast.walk(st)):
+            # reads one operand without normalising it (e.g. `use_bare = not mv1.algebra.wrapper`): no treatment of
+            # the operand, nothing to mirror - what the operands go through is decided by C16.operand-kinds
+            continue
         if has1 and not has2:
             one_sided[1].append(un(_renamed(st, {p1: "OPERAND"})))
         elif has2 and not has1:
